@@ -246,7 +246,10 @@ class Check:
             r.trace_text = p.stdout
             return r
         if r.rc != 0 and not r.violated:
-            tail = "\n".join(p.stdout.splitlines()[-60:])
+            lines_ = p.stdout.splitlines()
+            errs = [i for i, l in enumerate(lines_) if l.startswith("Error:") or "Exception" in l]
+            head = "\n".join("\n".join(lines_[i:i + 6]) for i in errs[:3])
+            tail = head + "\n...\n" + "\n".join(lines_[-25:])
             raise Infra("TLC failed rc=%d on %s/%s:\n%s\n%s" % (r.rc, module, name, tail, p.stderr[-2000:]))
         shutil.rmtree(os.path.join(d, "meta"), ignore_errors=True)
         return r
